@@ -28,7 +28,7 @@ Proof.
     destruct Ha as [-> | [-> | ->]].
     - destruct (negb (Nat.ltb 0 (refs (getth s t)))); [discriminate|]. destruct (live s); [reflexivity|discriminate].
     - destruct (Nat.eqb (lend (getth s t)) 0); [discriminate|]. destruct (live s); [reflexivity|discriminate].
-    - destruct (negb (Nat.ltb 0 (refs (getth s t))) || mustfree (getth s t) || lends_from s t); [discriminate|].
+    - destruct (negb (Nat.ltb 0 (refs (getth s t))) || mustfree (getth s t) || (lends_from s t && Nat.leb (refs (getth s t)) 1)); [discriminate|].
       destruct (live s); [reflexivity|discriminate]. }
   destruct (J1 s I Hlive) as (_ & ->). unfold getth. apply total_ge.
 Qed.
@@ -40,15 +40,11 @@ Proof.
   destruct (negb (Nat.ltb t (length (ths s)))); [discriminate|].
   destruct (negb (started (getth s t))); [discriminate|].
   destruct (Nat.ltb_spec 0 (refs (getth s t))) as [Hr|Hr]; cbn [negb orb] in H; [|discriminate].
-  destruct (lends_from s t) eqn:Hl; [discriminate|].
+  destruct (lends_from s t && Nat.leb (refs (getth s t)) 1); [discriminate|].
   destruct (live s) eqn:Hlive; cbn [negb] in H; [|discriminate].
   rewrite Hm in H.
   destruct (forallb (fun m' => negb (hbb m' (clk (getth s t)))) (firstn p (msgs s))) eqn:Hf; cbn [negb] in H; [|discriminate].
-  destruct p as [|p].
-  - (* the newest message: its value is the number of references that exist *)
-    destruct (J1 s I Hlive) as (Hne & Hv). unfold hdm in Hv. destruct (msgs s) as [|m0 l]; [contradiction|].
-    cbn in Hm. injection Hm as <-. cbn [hd] in Hv. rewrite Hv. unfold getth. apply total_ge.
-  - (* an older message the thread has not yet been forced past: J7 *)
-    pose proof (J7 s I t (S p) m) as H7. unfold T in H7.
-    specialize (H7 Hr ltac:(lia) Hm (firstn_forallb_unseen s t (S p) Hf Hl)). lia.
+  (* whichever message it reads, nothing newer has reached the thread: J11 *)
+  apply (J11 s I t p m Hr Hm). intros m' Hin Hhb. rewrite forallb_forall in Hf. specialize (Hf m' Hin).
+  apply hbb_spec in Hhb. unfold T in Hhb. rewrite Hhb in Hf. discriminate.
 Qed.
